@@ -57,7 +57,7 @@ fn main() {
             "holder-window" => holder::replay(&sc),
             "holder-seq" => holder::replay_seq(&sc),
             "macro" => macros::replay(&sc),
-            "queue" | "queue-capacity" | "queue-blocking-emit" | "queue-stats" | "queue-sampler" => queue::replay(&sc),
+            "queue" | "queue-capacity" | "queue-blocking-emit" | "queue-stats" | "queue-sampler" | "flush-delegation" | "queue-second-consumer" | "queue-drop-calls-sink" => queue::replay(&sc),
             _ => json!({"error": format!("unknown scenario kind {}", kind)}),
         };
         outs.push(out);
